@@ -118,6 +118,22 @@ def pregen_pqgo(work):
     return None
 
 
+def pregen_hm(work):
+    """Ekit/Generated/HashMapGo.lean: mapx/hashmap.go as terms of the fifth MiniGo instance (harness/minigohm: node heap, the Go
+    map as a function code -> optional head pointer, the node pool with the sync.Pool.Get choice as an oracle); the driver area
+    `hmptr` and the theorems of Props/C03HM.lean are about the interpreter running this output."""
+    binp, blog = work.build("minigohm")
+    if binp is None:
+        return "Go->MiniGo(HM) translator does not build: " + blog
+    out = os.path.join(core.LEAN, "Ekit", "Generated", "HashMapGo.lean")
+    tmp = os.path.join(work.dir, "HashMapGo.lean")
+    rc, log = core.sh([binp, "-root", work.repo, "-out", tmp], env=core.GOENV, timeout=120)
+    if rc != 0:
+        return "Go->MiniGo(HM) translator failed (mapx/hashmap.go left the translated subset): " + log
+    core.write_if_changed(out, open(tmp).read())
+    return None
+
+
 def lean_obligations(res, pid, extra_targets=()):
     """lake build of the property module + axiom audit + forbidden-token grep.
     Returns True iff every proof obligation of `pid` is discharged."""
